@@ -1,7 +1,7 @@
 import ast
 import inspect
 from dataclasses import is_dataclass
-from typing import Any, Dict, List
+from typing import Any, Dict, List, Optional
 
 from func_adl.util_ast import lambda_build
 
@@ -92,6 +92,7 @@ def resolve_syntatic_sugar(a: ast.AST) -> ast.AST:
             node: ast.AST,
             sig_arg_names: List[str],
             sig_defaults: Dict[str, Any] = {},
+            n_positional: Optional[int] = None,
         ) -> ast.AST:
             """Translate a data class into a dictionary.
 
@@ -106,6 +107,13 @@ def resolve_syntatic_sugar(a: ast.AST) -> ast.AST:
                 assert isinstance(a.func, ast.Constant)
                 raise ValueError(
                     f"Too many arguments for dataclass {a.func.value} - {ast.unparse(node)}."
+                )
+
+            if n_positional is not None and len(a.args) > n_positional:
+                assert isinstance(a.func, ast.Constant)
+                raise ValueError(
+                    f"Too many positional arguments for dataclass {a.func.value} (keyword-only "
+                    f"fields must be given by name) - {ast.unparse(node)}."
                 )
 
             arg_values = list(a.args)  # the call node may occur at several places: do not edit it
@@ -165,7 +173,17 @@ def resolve_syntatic_sugar(a: ast.AST) -> ast.AST:
                         if isinstance(p.default, (str, int, float, bool))
                     }
 
-                    return self.convert_call_to_dict(a, node, sig_arg_names, sig_defaults)
+                    n_positional = len(
+                        [
+                            p
+                            for p in signature.parameters.values()
+                            if p.kind in (p.POSITIONAL_ONLY, p.POSITIONAL_OR_KEYWORD)
+                        ]
+                    )
+
+                    return self.convert_call_to_dict(
+                        a, node, sig_arg_names, sig_defaults, n_positional
+                    )
 
                 elif hasattr(a.func.value, "_fields"):
                     # We have a named tuple. Turn it into a dictionary
